@@ -181,6 +181,8 @@ func OwnLayers(n *gen.Node) []Layer {
 		out = []Layer{harnessL("*gen.FmtArgLeaf")}
 	case "protofailleaf":
 		out = []Layer{harnessL("*gen.ProtoFailLeaf")}
+	case "silentsafeleaf":
+		out = []Layer{harnessL("*gen.SilentSafeLeaf")}
 	case "domainraw":
 		out = []Layer{domainL(gen.OneLine(S[0]))}
 	case "withstackdeep":
@@ -228,7 +230,7 @@ func OwnLayers(n *gen.Node) []Layer {
 		out = []Layer{harnessL("*gen.StackSafeLeaf")}
 	case "lowleaf", "lowwrap":
 		out = []Layer{harnessL("*gen.LOW")}
-	case "wrap", "wrapf", "wrapf0":
+	case "wrap", "wrapf", "wrapf0", "wrapfempty":
 		out = []Layer{st(), withPrefix}
 	case "wrapempty", "withstack":
 		out = []Layer{st()}
@@ -334,7 +336,7 @@ func OwnLayers(n *gen.Node) []Layer {
 		out = []Layer{harnessL("*gen.FmtrWrap")}
 	case "elidewrap":
 		out = []Layer{harnessL("*gen.ElideWrap")}
-	case "handled", "handledmsg", "handledmsgf", "handledmsgf0", "opaque":
+	case "handled", "handledmsg", "handledmsgf", "handledmsgf0", "handledmsgempty", "opaque":
 		out = []Layer{barrierErr}
 	case "handleddomain", "handleddommsg":
 		out = []Layer{domainL(named(S[0])), barrierErr}
@@ -426,7 +428,7 @@ func Text(n *gen.Node) string {
 	case "newfew":
 		return S[0] + " " + h(0) + " " + S[1] + " " + k(0)
 	case "goerr", "new", "pkgnew", "nofmtleaf", "fmtleaf", "unimpl", "domnew", "gstatus",
-		"oldfmtleaf", "fmtrleaf", "ncleaf", "isleaf", "hdleaf", "protofailleaf", "lowleaf", "asleaf", "stacksafeleaf", "elidewrap", "handledmsg", "unimpld", "oldfmtelide", "safemsgwrap":
+		"oldfmtleaf", "fmtrleaf", "ncleaf", "isleaf", "hdleaf", "protofailleaf", "silentsafeleaf", "lowleaf", "asleaf", "stacksafeleaf", "elidewrap", "handledmsg", "unimpld", "oldfmtelide", "safemsgwrap":
 		return S[0]
 	case "newf":
 		return S[1] + " " + S[0] + " " + S[2]
@@ -451,7 +453,7 @@ func Text(n *gen.Node) string {
 		return "safe " + S[0] + ": " + k(0)
 	case "withstack", "hint", "detail", "safedetails", "safedetails0", "telemetry", "domain", "issuelink", "tags", "tagsafe",
 		"assertion", "mark", "markempty", "secondary", "http", "grpc", "pkgstack", "emptywrap", "wrapempty",
-		"hintf", "detailf", "telemetry0", "combine", "issuelinkd", "issuelinku", "domainnone", "domainraw", "withstackdeep":
+		"hintf", "detailf", "telemetry0", "combine", "issuelinkd", "issuelinku", "domainnone", "domainraw", "withstackdeep", "wrapfempty":
 		return k(0)
 	case "newfw":
 		return S[0] + " " + k(0) + " " + S[1]
@@ -477,7 +479,7 @@ func Text(n *gen.Node) string {
 		return S[0] + " tcp " + S[1] + "->" + S[2] + ": " + k(0)
 	case "operrnone":
 		return S[0] + " tcp: " + k(0)
-	case "emptynew":
+	case "emptynew", "handledmsgempty":
 		return ""
 	case "fmtargleaf":
 		return S[0] + " [" + S[1] + "]"
